@@ -129,6 +129,10 @@ def apply_op(env: Env, op):
     # whether `late_touch` came before or after the registration is a matter of
     # order and both are fine; what a thread sees AFTER registering is not
     return 'order-dependent' if k == 'late_touch' else out
+  if k == 'tvalue':
+    # a stand-alone TaggedValue (Tag.new): a small configuration made and dropped
+    tv = stubmod.TAGS[op['tag']].new(op['v'])
+    return C.canon(tv)
   if k == 'suspend_enter':
     if len(env.suspend) >= 2:
       return 'skip'
@@ -195,6 +199,9 @@ def apply_op(env: Env, op):
     return C.canon(cfg)
   if k == 'set_tags':
     fdl_tagging.set_tags(cfg, op['arg'], [stubmod.TAGS[t] for t in op['tags']])
+    return C.canon(cfg)
+  if k == 'set_tagged':
+    fdl_tagging.set_tagged(cfg, tag=stubmod.TAGS[op['tag']], value=mk(op['v']))
     return C.canon(cfg)
   if k == 'clear_tags':
     fdl_tagging.clear_tags(cfg, op['arg'])
